@@ -499,6 +499,7 @@ Proof.
     destruct (d_verb sp =? 111); [reflexivity|]. destruct (d_verb sp =? 117); [reflexivity|].
     destruct (d_verb sp =? 101); [reflexivity|].
     destruct (d_verb sp =? 69); [reflexivity|]. destruct (d_verb sp =? 102); [reflexivity|].
+    destruct (d_verb sp =? 103); [reflexivity|]. destruct (d_verb sp =? 71); [reflexivity|].
     destruct (d_verb sp =? 115) eqn:V115; [|reflexivity].
     destruct (is_integral n && in_int64 (to_int64 n) && negb (to_int64 n =? - two63)); [|reflexivity].
     f_equal. apply pad_str_eq. unfold verb_in in H. cbn [existsb] in H. rewrite V99, V115 in H. exact H.
